@@ -66,7 +66,7 @@ class C11(Check):
     required_counters = ("hdf_roundtrips", "yaml_config_roundtrips", "ascii_roundtrips", "metadata_roundtrips",
                          "catalog_roundtrips")
     shards = (8, 16)
-    budget = (70, 500)
+    budget = (300, 500)
 
     def cases(self, tier, seed):
         q = tier == "quick"
